@@ -46,7 +46,7 @@ Dead == port = "none" \/ err # NoErr
 RecordError(kind) == err' = IF err = NoErr THEN <<ncalls, kind>> ELSE err       \* the only writer of err
 Env(e) == hist' = [hist EXCEPT ![Len(hist)].env = Append(@, e)]                   \* log an environment choice
 
-Supported(d) == d \in {"ebb_ok", "ebb_late"}
+Supported(d) == SupportedDev(d, MinVer)            \* the numeric version gate
 Init ==
   /\ dev \in Devices /\ board \in InitBoards /\ replugs = 0
   /\ ver = IF StartConnected THEN "ok" ELSE "none"
@@ -170,7 +170,7 @@ Finish ==
                ELSE IF m = "var_read_int32" THEN NoneV
                ELSE CHOOSE v \in FailSet(m) : TRUE
      /\ name' = IF m = "write_nickname" /\ (okAll \/ ~FixNick) THEN call.s
-                ELSE IF m \in {"query_nickname", "connect"} /\ okAll /\ got # <<>> /\ got[Len(got)].s # "" THEN got[Len(got)].s ELSE name
+                ELSE IF m \in {"query_nickname", "connect"} /\ okAll /\ got # <<>> THEN got[Len(got)].s ELSE name       \* an empty answer is stored too ("" : no nickname)
   /\ pc' = "ret"
   /\ UNCHANGED <<port, err, board, dev, ver, replugs, ncalls, nfaults, call, prog, deadAtEntry, empties, rep, failed, wr, got, errAtEntry, hist>>
 
@@ -185,8 +185,6 @@ Disconnect == /\ pc = "disconnect" /\ port' = "none" /\ pc' = "ret"
               /\ UNCHANGED <<err, name, board, dev, ver, replugs, ncalls, nfaults, call, prog, deadAtEntry, empties, rep, failed, wr, got, ret, errAtEntry, hist>>
 
 (* ---------------- connect(): resolve, open, probe (twice), verify, version gate, CU,10,1, nickname ---------------- *)
-VerOf(d) == IF d = "ebb_old" THEN <<2, 8, 1>> ELSE <<3, 0, 3>>
-VerGE(v, t) == v[1] > t[1] \/ (v[1] = t[1] /\ (v[2] > t[2] \/ (v[2] = t[2] /\ v[3] >= t[3])))
 Connect ==
   /\ pc = "connect"
   /\ IF port = "open" THEN pc' = "ret" /\ ret' = <<"bool", TRUE>> /\ UNCHANGED <<port, err, wr, prog, failed, ver>>     \* already connected
@@ -198,7 +196,7 @@ Connect ==
                  /\ RecordError("usbtest") /\ wr' = <<"v">> /\ ret' = <<"bool", FALSE>> /\ pc' = "ret" /\ failed' = TRUE /\ UNCHANGED <<port, prog, ver>>
             [] dev \in {"non_ebb", "silent"} ->     \* two probes, neither verified
                  /\ RecordError("noconnect") /\ wr' = <<"v", "v">> /\ ret' = <<"bool", FALSE>> /\ pc' = "ret" /\ failed' = TRUE /\ UNCHANGED <<port, prog, ver>>
-            [] dev = "ebb_old" ->           \* verified, firmware below the minimum
+            [] HasVersion(dev) /\ ~Supported(dev) ->           \* verified, firmware below the minimum
                  /\ RecordError("oldfw") /\ wr' = <<"v">> /\ ret' = <<"bool", FALSE>> /\ pc' = "ret" /\ failed' = TRUE /\ ver' = "old"
                  /\ port' = (IF FixConnect THEN "none" ELSE "open") /\ UNCHANGED prog
             [] dev \in {"ebb_noversion", "ebb_in_text"} /\ (FixStale \/ ver # "ok") ->
